@@ -385,6 +385,28 @@ def python_half(ctx):
                     else:
                         ctx.violation({"where": "python", "op": "interp_like", "self": sname, "other": oname, "other_kind": okind, "spectrum": spectrum},
                                       "interp_like of a %s spectrum onto a %s %s: %s" % (sname, oname, okind, what))
+    # ---- rmse between two valid spectra on the same grid: a finite non-negative number for 2-D and for 1-D spectra, with and
+    # without leading dimensions
+    for spectrum in ("ordinary", "twopeaks", "zero"):
+        for dirs in ("many", "one", "none"):
+            for nf in (1, 3, 8):
+                me = representative(nf, dirs, spectrum, rng3)
+                for lead in ("none", "time2"):
+                    a = me if lead == "none" else xr.concat([me, me * 0.5], dim=xr.DataArray(np.array(["2020-01-01T00", "2020-01-01T03"], dtype="datetime64[s]"), dims="time", name="time"))
+                    ctx.case(("rmse", spectrum, dirs, nf, lead), True)
+                    try:
+                        out = a.spec.rmse(a * 1.5 + 0.25)
+                        v = np.asarray(out.values, float)
+                        # the error is relative to the energy of self: for a zero-energy self it is a ratio over 0 (degenerate, anything but an exception)
+                        ok = (spectrum == "zero" or bool(np.all(np.isfinite(v)) and np.all(v >= 0))) and not (set(out.dims) & {"freq", "dir"})
+                        what = "values %s dims %s" % (v.ravel()[:3], out.dims)
+                    except Exception as ex:  # noqa
+                        ok, what = False, "raised %s: %s" % (type(ex).__name__, str(ex)[:120])
+                    if ok:
+                        ctx.replayed()
+                    else:
+                        ctx.violation({"where": "python", "op": "rmse", "dirs": dirs, "nf": nf, "spectrum": spectrum, "lead": lead},
+                                      "rmse of two valid %s spectra (dirs=%s, nf=%d, lead=%s): %s" % (spectrum, dirs, nf, lead, what))
     if vecs:
         ctx.sample({"kind": "outcome-table case", "case": vecs[len(vecs) // 2]})
 
